@@ -848,6 +848,11 @@ def main():
         files["Auth.lean"] = text
         done += d6
         failed += f6
+        # qobjecthandler.cpp: the dispatch decision of process()
+        text, d7, f7 = cxx2lean_qt.translate_slot(repo, exp)
+        files["Slot.lean"] = text
+        done += d7
+        failed += f7
         # proxysocket.cpp: the upstream-side slots and the buffering slot, over the model's Proxy.St
         text, d4, f4 = cxx2lean_qt.translate_proxy(repo, exp)
         files["Proxy.lean"] = text
